@@ -280,3 +280,98 @@ def closure_text(model, mod, cls, node, depth=1, _seen=None):
                 _seen.add(id(t[2]))
                 out.append(closure_text(model, t[0], t[1], t[2], depth - 1, _seen))
     return "\n".join(out)
+
+
+# ---------------------------------------------------------------------------------------------
+# structural templates with metavariables (rename-insensitive anchors)
+# ---------------------------------------------------------------------------------------------
+_TEMPLATE_CACHE: dict = {}
+
+
+def _template(src):
+    t = _TEMPLATE_CACHE.get(src)
+    if t is None:
+        mod = ast.parse(src)
+        body = mod.body[0]
+        t = body.value if isinstance(body, ast.Expr) else body
+        _TEMPLATE_CACHE[src] = t
+    return t
+
+
+def pmatch(template, node, binds=None):
+    """Match ``node`` against a template given as source text.  Names of the form ``V_x`` are metavariables: they match
+    any expression (or assignment target) and must match the same text at every occurrence.  ``V__`` matches anything
+    without binding.  Everything else must agree structurally (contexts and positions ignored).
+    Returns the bindings {metavariable: source text} or None."""
+    t = _template(template) if isinstance(template, str) else template
+    b = dict(binds or {})
+    return b if _pm(t, node, b) else None
+
+
+def _pm(t, n, b):
+    if isinstance(t, ast.Name) and t.id.startswith("V_"):
+        if not isinstance(n, ast.AST):
+            return False
+        if t.id == "V__":
+            return True
+        txt = ast.unparse(n)
+        if t.id in b:
+            return b[t.id] == txt
+        b[t.id] = txt
+        return True
+    if isinstance(t, ast.AST):
+        if type(t) is not type(n):
+            return False
+        for f in t._fields:
+            if f == "ctx":
+                continue
+            if not _pm(getattr(t, f, None), getattr(n, f, None), b):
+                return False
+        return True
+    if isinstance(t, list):
+        if not isinstance(n, list) or len(t) != len(n):
+            return False
+        return all(_pm(x, y, b) for x, y in zip(t, n))
+    if isinstance(t, str) and isinstance(n, str) and t.startswith("V_"):
+        # metavariable in an identifier slot (attribute name, keyword, arg): bind to the identifier
+        if t in b:
+            return b[t] == n
+        b[t] = n
+        return True
+    return t == n
+
+
+def pfind(template, root, binds=None):
+    """all (node, bindings) under root that match the template"""
+    t = _template(template)
+    out = []
+    for n in ast.walk(root):
+        if type(n) is type(t):
+            b = pmatch(t, n, binds)
+            if b is not None:
+                out.append((n, b))
+    return out
+
+
+def locals_defined_by(fn, template, binds=None):
+    """names of the locals of ``fn`` that are assigned (somewhere) a value matching the template - the way rules identify a
+    local by what it holds rather than by what it is called"""
+    out = []
+    for n in ast.walk(fn):
+        if isinstance(n, ast.Assign) and len(n.targets) == 1 and isinstance(n.targets[0], ast.Name):
+            if pmatch(template, n.value, binds) is not None and n.targets[0].id not in out:
+                out.append(n.targets[0].id)
+        elif isinstance(n, ast.AnnAssign) and isinstance(n.target, ast.Name) and n.value is not None:
+            if pmatch(template, n.value, binds) is not None and n.target.id not in out:
+                out.append(n.target.id)
+    return out
+
+
+def one_local(fn, template, what, binds=None):
+    """the single local defined by the template, or AnalysisError (anchor vanished)"""
+    from sa.model import AnalysisError
+
+    names = locals_defined_by(fn, template, binds)
+    if len(names) != 1:
+        raise AnalysisError(f"anchor vanished: {what} (a local assigned `{template}`; found {names})")
+    return names[0]
